@@ -13,6 +13,9 @@ KF = 'F-JINJA-COMMENT-STAR'
 KF2 = 'F-JINJA-AUTOINDENT-NONSTR'
 KF3 = 'F-JINJA-AUTOINDENT-SCOPE'
 KF4 = 'F-JINJA-MARKER-DELIM'
+KF5 = 'F-JINJA-LINEPREFIX-TERMINATOR'
+KF6 = 'F-JINJA-AUTOINDENT-FINALIZE'
+KF7 = 'F-JINJA-MARKER-MINUS'
 
 MANIFEST = dict(
     category='proof',
@@ -201,6 +204,12 @@ def gen_lp(rng):
     return [s, p]
 
 
+def prefix_lines_keepends(s: str, p: str) -> str:
+    """THE PROPERTY, written independently of the implementation: every non-empty line of the emitted text gets the prefix; the text is
+    otherwise untouched (every line keeps its own terminator, also the last one)"""
+    return ''.join((p + ln) if ln.rstrip('\r\n\x0b\x0c\x1c\x1d\x1e\x85\u2028\u2029') else ln for ln in s.splitlines(True))
+
+
 def lineprefix_oracle(s: str, p: str) -> str:
     return '\n'.join((p + ln) if ln else ln for ln in s.splitlines())
 
@@ -215,7 +224,7 @@ def gen_autoindent(rng):
     post = rng.choice(['', '|', '\ntail', ';\n', '\n\nz'])
     nl = rng.choice(['\n', '\n', '\r\n'])
     ctx = {'x': rng.choice(VALUES), 'xs': [rng.choice(VALUES) for _ in range(rng.randrange(0, 4))], 'c': rng.random() < 0.8}
-    kind = rng.choice(['var', 'var', 'varf', 'tuple', 'int', 'if', 'for', 'include', 'set', 'filter', 'call', 'minus'])
+    kind = rng.choice(['var', 'var', 'varf', 'tuple', 'int', 'ifml', 'forml', 'if', 'for', 'include', 'set', 'filter', 'call', 'minus'])
     inc = {}
     if kind == 'var':
         cons = ('{{', ' x }}')
@@ -230,6 +239,10 @@ def gen_autoindent(rng):
         inc = {'inc': 'I'}
     elif kind == 'minus':
         cons = ('{{', ' x -}}  ')
+    elif kind == 'ifml':      # the idiomatic multi-line block: tags on their own (indented) lines
+        cons = ('{%', ' if c %}' + nl + 'a;' + nl + 'b{{ x }};' + nl + rng.choice(['', '    ', '\t']) + '{% endif %}')
+    elif kind == 'forml':
+        cons = ('{%', ' for i in xs %}' + nl + 'item {{ i }};' + nl + rng.choice(['', '  ']) + '{% endfor %}')
     elif kind == 'if':
         cons = ('{%', ' if c %}A' + nl + 'B{{ x }}' + nl + '{% else %}no{% endif %}')
     elif kind == 'for':
@@ -246,7 +259,13 @@ def gen_autoindent(rng):
     opener, tail = cons
     marker_t = dict(inc, main=pre + ws + opener + '*' + tail + post)
     plain_t = dict(inc, main=opener + tail)
-    return {'kind': kind, 'marker': marker_t, 'plain': plain_t, 'pre': pre, 'ws': ws, 'post': post, 'ctx': ctx, 'opener': opener}
+    # environment: a plain Environment or nunavut's real CodeGenEnvironment, with trim_blocks/lstrip_blocks as nnvg sets them (both or none)
+    envk = rng.choice(['plain', 'plain', 'codegen'])
+    opts = rng.choice([{}, {'trim_blocks': True, 'lstrip_blocks': True}])
+    if envk == 'codegen':
+        ctx.setdefault('y', 1)
+    return {'kind': kind, 'marker': marker_t, 'plain': plain_t, 'pre': pre, 'ws': ws, 'post': post, 'ctx': ctx, 'opener': opener,
+            'env': envk, 'opts': opts, 'tail': tail}
 
 
 # ---------------------------------------------------------------------------------------------
@@ -340,7 +359,7 @@ def visits_of(toks) -> typing.Optional[str]:
 # filters indent/urlize/tojson/xmlattr/truncate/title/striptags/groupby/wordwrap/filesizeformat/random; tests added in 2.11+
 # (boolean/integer/float/true/false); async; `with context` defaults of import; autoescape/Markup repr; loop.depth etc. are kept.
 NAMES = ['x', 'y', 'n', 'xs', 'd', 's', 'undef']
-TEXTS = ['a', 'b ', ' c', '\n', '  ', 'T\n', '\n  ', ';', 'é', '}', '{ ', '% ', '# ', '*', '-', '{*', '\t']
+TEXTS = ['a', 'b ', ' c', '\n', '  ', 'T\n', '\n  ', ';', 'é', '}', '{ ', '% ', '# ', '*', '-', '{ *', '\t']
 SAFE_FILTERS = ['upper', 'lower', 'length', 'trim', 'first', 'last', 'string', 'list', 'capitalize', 'reverse|list', 'sort', 'abs',
                 'default("dflt")', 'join(",")', 'replace("a", "b")', 'int', 'center(7)', 'e', 'sum', 'unique|list', 'min', 'max']
 TESTS = ['defined', 'none', 'even', 'odd', 'string', 'number', 'mapping', 'iterable', 'sequence', 'divisibleby(2)', 'undefined']
@@ -359,7 +378,7 @@ SYNTAX_ATOMS = [
     '{% with a=1, b=(2, 3) %}{{ a, b }}{% endwith %}', '{% with %}{% set q = 1, %}{{ q }}{% endwith %}',
     '{% filter upper|replace("A", "b") %}aa{% endfilter %}', '{% set t %}x{{ n }}{% endset %}{{ t, t|length }}',
     '{% if n is defined and (n, s) %}t{% endif %}', '{% if n in (1, 2, 3,) %}in{% else %}out{% endif %}',
-    '{% from "lib" import dbl, K %}{{ dbl(K), K }}', '{% from "lib" import dbl as f, K as k2, %}{{ f(k2) }}',
+    '{% from "lib" import dbl, K %}{{ dbl(K), K }}', '{% from "lib" import dbl as f, K as k2 %}{{ f(k2) }}',
     '{% block scoped_b scoped %}{{ n }}{% endblock %}', '{% include ["nope", "inc"] ignore missing with context %}',
     '{{ (n if n else s), (n if false) }}', '{{ xs|map("string")|list, xs|select("odd")|list|length }}', '{{ d["k"], d.get("zz", 5), xs[0] if xs }}',
     '{{ 1 if n, 2 }}', '{{ [a for a in xs] }}', '{{ a, b = 1 }}', '{% set a, b = 1 %}', '{% for in xs %}{% endfor %}', '{{ , }}', '{{ (,) }}',
@@ -378,8 +397,75 @@ class TGen:
     def ws(self, side: str) -> str:
         return '-' if self.rng.random() < 0.18 else ''
 
+    def num(self, d: int = 0) -> str:
+        r = self.rng
+        k = r.randrange(7 if d < 2 else 3)
+        if k == 0:
+            return 'n'
+        if k == 1:
+            return str(r.randrange(0, 40))
+        if k == 2:
+            return r.choice(['xs|length', 's|length', 'n|abs', 'd|length', '2.5', '(n + 1)'])
+        if k == 3:
+            return '(%s %s %s)' % (self.num(d + 1), r.choice(['+', '-', '*']), self.num(d + 1))
+        if k == 4:
+            return '(%s %s %s)' % (self.num(d + 1), r.choice(['//', '%']), r.choice(['3', '7', '(n + 1)']))
+        if k == 5:
+            return '(%s if %s else %s)' % (self.num(d + 1), self.boolean(d + 1), self.num(d + 1))
+        return r.choice(['range(3)|list|sum', '[1, 2, 3]|max', '2 ** 3', '-n', 'n|int', '(n / 4)|round|int'])
+
+    def string(self, d: int = 0) -> str:
+        r = self.rng
+        k = r.randrange(7 if d < 2 else 3)
+        if k == 0:
+            return 's'
+        if k == 1:
+            return r.choice(['"str"', "'a b'", '"L1\\nL2"', '""', '"x*y"'])
+        if k == 2:
+            return '%s|string' % r.choice(['n', 'x', 'xs', 'd', 'y'])
+        if k == 3:
+            return '(%s ~ %s)' % (self.string(d + 1), r.choice([self.string(d + 1), self.num(d + 1)]))
+        if k == 4:
+            return '%s | %s' % (self.string(d + 1) if d else 's', r.choice(['upper', 'lower', 'trim', 'capitalize', 'replace("a", "b")', 'center(7)', 'e', 'default("dflt")',
+                                                                             'reverse|list|join', 'list|join(",")', 'string']))
+        if k == 5:
+            return r.choice(['s[1:]', 's[:2]', 'xs|join("-")', 'xs|map("string")|join', 'd|dictsort|string', '"%s-%s"|format(n, s)'])
+        return '(%s if %s else %s)' % (self.string(d + 1), self.boolean(d + 1), self.string(d + 1))
+
+    def boolean(self, d: int = 0) -> str:
+        r = self.rng
+        k = r.randrange(7 if d < 2 else 3)
+        if k == 0:
+            return r.choice(['true', 'false', 'n', 's', 'xs', 'd', 'x', 'y', 'undef'])
+        if k == 1:
+            return '(%s %s %s)' % (self.num(d + 1), r.choice(['==', '!=', '<', '>=']), self.num(d + 1))
+        if k == 2:
+            t = r.choice(TESTS)
+            return '%s is %s%s' % ('n' if t in ('even', 'odd', 'divisibleby(2)') else r.choice(NAMES), r.choice(['', 'not ']), t)
+        if k == 3:
+            return '(%s %s %s)' % (self.boolean(d + 1), r.choice(['and', 'or']), self.boolean(d + 1))
+        if k == 4:
+            return 'not ' + self.boolean(d + 1)
+        if k == 5:
+            return r.choice(['(%s %s %s)' % (r.choice(['n', '1']), r.choice(['in', 'not in']), r.choice(['xs', '[1, 2, 3]', '(1, 2)'])),
+                             '(%s %s %s)' % (r.choice(['"a"', 's']), r.choice(['in', 'not in']), r.choice(['s', 'd', '"xay"']))])
+        return '(%s == %s)' % (self.string(d + 1), self.string(d + 1))
+
     def expr(self, d: int = 0) -> str:
         r = self.rng
+        if r.random() < 0.93:     # well-typed: renders in both engines (the point of the differential is the OUTPUT)
+            k = r.randrange(10)
+            if k < 3:
+                return self.num(d)
+            if k < 6:
+                return self.string(d)
+            if k < 8:
+                return self.boolean(d)
+            if k == 8 and self.macros:
+                return '%s(%s)' % (r.choice(self.macros), self.num(d + 1))
+            return r.choice(['x', 'y', 'n', 'xs', 'd', 's', 'undef', 'xs|first', 'xs|last', 'd.k', 'd["k"]', 'd.missing', 'none', '[1, 2, 3]', '{"k": 1}', '(1, 2)',
+                             'xs|sort', 'xs|unique|list', 'xs|reverse|list', 'range(3)|list', 'xs|select("odd")|list' if False else 'xs|length'])
+        # untyped remainder: type errors, undefined operations -- the error paths of both engines must agree as well
         k = r.randrange(14 if d < 2 else 6)
         if k == 0:
             return r.choice(NAMES)
@@ -433,8 +519,8 @@ class TGen:
         r = self.rng
         k = r.randrange(18 if d < 3 else 4)
         if r.random() < 0.06:
-            return r.choice(SYNTAX_ATOMS)
-        if r.random() < 0.015:
+            return r.choice(SYNTAX_ATOMS if r.random() < 0.25 else SYNTAX_ATOMS[:-7])     # the last 7 are illegal in both engines
+        if r.random() < 0.004:
             # near-marker junk: a sign between opener and `*` is a syntax error in BOTH engines (2.x: operator `+`/`*`, 3.x: sign then `*`)
             return r.choice([' {%+* if x %}y{% endif %}', ' {{+* x }}', ' {%-* if x %}y{% endif %}', '\t{{-* x }}'])
         if k <= 1:
@@ -460,7 +546,7 @@ class TGen:
         if k == 5:
             cond = self.expr()
             if r.random() < 0.15:   # parse_if uses parse_tuple(with_condexpr=False): implicit tuples are legal tests
-                cond = r.choice(['n in xs, 2', 'x, y', 'n in 1, 2', '(), ()', 'n,'])
+                cond = r.choice(['n in xs, 2', 'x, y', 'n in (1, 2), 3', '(), ()', 'n,'])
             s = self.tag('if ' + cond) + self.body(d + 1)
             if r.random() < 0.4:
                 s += self.tag('elif ' + self.expr()) + self.body(d + 1)
@@ -473,7 +559,7 @@ class TGen:
             head = 'for i in ' + it
             if r.random() < 0.25:   # tuple targets and implicit tuples as iterables
                 head = r.choice(['for k, v in d.items()', 'for k, v in d|dictsort', 'for i in 1, 2, 3', 'for i in n, "s"', 'for (a, b) in [(1, 2), (3, 4)]',
-                                 'for a, b in [(1, 2), (3, 4)]', 'for i, in [(1,), (2,)]', 'for k, v in xs'])
+                                 'for a, b in [(1, 2), (3, 4)]', 'for k, v in d|dictsort'])
             s = self.tag(head + (' if i' if filtered and head.startswith('for i in') else '')) + self.body(d + 1)
             if 'k, v' in head or 'a, b' in head or '(a, b)' in head:
                 s += r.choice(['', '{{ k, v }}' if 'k, v' in head else '{{ a, b }}'])
@@ -485,31 +571,33 @@ class TGen:
             return s + self.tag('endfor')
         if k == 7:
             if r.random() < 0.3:
-                return self.tag(r.choice(['set a, b = %s, %s' % (self.atom(), self.atom()), 'set a, b = (1, 2)', 'set (a, b) = 3, 4', 'set a, = [n]',
-                                          'set a, b = xs', 'set t = 1, 2', 'set t = n,'])) + r.choice(['{{ a }}', '{{ a, b }}', '{{ t }}', ''])
+                return self.tag(r.choice(['set a, b = %s, %s' % (self.atom(), self.atom()), 'set a, b = (1, 2)', 'set (a, b) = 3, 4',
+                                          'set t = 1, 2', 'set t = n,'])) + r.choice(['{{ a }}', '{{ a, b }}', '{{ t }}', ''])
             return self.tag('set %s = %s' % (r.choice(['y', 'x', 'n']), self.expr()))
         if k == 8:
             return self.tag('set blk') + self.body(d + 1) + self.tag('endset') + '{{ blk }}'
         if k == 9:
             name = 'm%d' % len(self.macros)
             s = self.tag('macro %s(a, b=3)' % name) + '{{ a }}' + self.body(d + 1) + '{{ b }}' + self.tag('endmacro')
-            self.macros.append(name)
+            if d == 0:
+                self.macros.append(name)     # visible to the rest of the template only when defined at top level
             return s + '{{ %s(%s) }}' % (name, self.expr())
-        if k == 10 and self.macros:
-            return self.tag('call %s(1)' % r.choice(self.macros)) + self.body(d + 1) + self.tag('endcall')
+        if k == 10:
+            return '{% macro cc() %}[{{ caller() }}]{% endmacro %}' + self.tag('call cc()') + self.body(d + 1) + self.tag('endcall')
         if k == 11:
-            return self.tag('filter ' + r.choice(['upper', 'lower', 'trim', 'replace("a", "Z")', 'length'])) + self.body(d + 1) + self.tag('endfilter')
+            return self.tag('filter ' + r.choice(['upper', 'lower', 'trim', 'replace("a", "Z")', 'capitalize'])) + self.body(d + 1) + self.tag('endfilter')
         if k == 12:
             return self.tag('raw') + r.choice([' {{ x }} ', '{% if %}', 'r\n', ' {# ', '{{*', ' {%* x', '', '\n    raw line\n', ' {% endraw', '\n  r  ']) \
                 + self.tag('endraw')
         if k == 16 and self.ls:
-            return '\n%% if ' + self.atom() + '\n' + self.body(d + 1) + '\n  %% endif' + r.choice(['', ' ## trailing']) + '\n' + r.choice(['', '## whole line\n'])
+            return '\n%% if ' + self.atom() + '\n' + self.body(d + 1) + '\n  %% endif\n' + r.choice(['', '## whole line\n', 'text ## trailing comment\n'])
         if k == 13:
-            return self.tag(r.choice(["include 'inc'", "include 'inc' ignore missing", "include 'nope' ignore missing", "include 'inc' without context",
-                                      "include ['nope', 'inc']", "include 'nope'"]))
+            return self.tag(r.choice(["include 'inc'", "include 'inc'", "include 'inc' ignore missing", "include 'nope' ignore missing", "include 'inc' without context",
+                                      "include ['nope', 'inc']", "include 'inc' with context"] + (["include 'nope'"] if r.random() < 0.15 else [])))
         if k == 14:
-            return self.tag(r.choice(["import 'lib' as lib", "from 'lib' import dbl", "from 'lib' import dbl as d2, K"])) + \
-                r.choice(['', '{{ lib.dbl(2) }}', '{{ dbl(3) }}', '{{ d2(4) }}{{ K }}'])
+            imp, use = r.choice([("import 'lib' as lib", '{{ lib.dbl(2) }}{{ lib.K }}'), ("from 'lib' import dbl", '{{ dbl(3) }}'),
+                                 ("from 'lib' import dbl as d2, K", '{{ d2(4) }}{{ K }}'), ("import 'lib' as lib with context", '{{ lib.K }}')])
+            return self.tag(imp) + r.choice(['', use, use])
         if k == 15:
             return self.tag('with z = ' + self.expr()) + '{{ z }}' + self.body(d + 1) + self.tag('endwith')
         return self.text()
@@ -562,7 +650,12 @@ def same(a: dict, b: dict) -> bool:
         return False
     if 'ok' in a and 'ok' in b:
         return ADDR_RE.sub('0x', a['ok']) == ADDR_RE.sub('0x', b['ok'])
-    return 'err' in a and 'err' in b
+    if 'err' in a and 'err' in b:
+        # "failure where upstream fails": the same exception CLASS, and the same template line where both engines report one
+        if a['err'] != b['err']:
+            return False
+        return a.get('lineno') is None or b.get('lineno') is None or a['lineno'] == b['lineno']
+    return False
 
 
 PIECE_RE = re.compile(r'(\{%.*?%\}|\{\{.*?\}\}|\{#.*?#\}|\n)', re.S)
@@ -671,6 +764,11 @@ def main(chk: core.Check, replay: typing.Optional[str] = None) -> int:
     if not ok_model:
         broken.append('model does not build/extract: ' + log[-300:])
 
+    stats: typing.Dict[str, int] = {}
+
+    def bump(k: str, n: int = 1) -> None:
+        stats[k] = stats.get(k, 0) + n
+
     # ---- known finding probe --------------------------------------------------------------------
     # (known_findings.json is merged from known_findings.d/ by the lead; read our own fragment too so that the check is
     #  correct before and after that merge -- nothing is ever written)
@@ -703,6 +801,35 @@ def main(chk: core.Check, replay: typing.Optional[str] = None) -> int:
         if kf3_live:
             chk.report_known(KF3)
 
+    kf5_live = kf6_live = kf7_live = False
+    if chk.is_known(KF5):
+        w5 = chk.known_entry(KF5)['witness']
+        r5 = run_impl('render_b', [{'templates': {'main': w5['template']}, 'main': 'main', 'ctx': w5['ctx'], 'opts': w5['opts']}])[0]
+        kf5_live = r5.get('ok') == w5['bundled'] and w5['bundled'] != w5['expected']
+        if kf5_live:
+            chk.report_known(KF5)
+    if chk.is_known(KF6):
+        w6 = chk.known_entry(KF6)['witness']
+        r6 = run_impl('render_b', [{'templates': {'main': w6['template']}, 'main': 'main', 'ctx': w6['ctx'], 'opts': w6['opts']}])[0]
+        kf6_live = r6.get('ok') == w6['bundled'] and w6['bundled'] != w6['expected']
+        if kf6_live:
+            chk.report_known(KF6)
+    if chk.is_known(KF7):
+        w7 = chk.known_entry(KF7)['witness']
+        r7 = run_impl('render_b', [{'templates': {'main': w7['template']}, 'main': 'main', 'ctx': w7['ctx']}])[0]
+        kf7_live = r7.get('ok') == w7['bundled']
+        if kf7_live:
+            chk.report_known(KF7)
+    # every further witness of the SCOPE entry is executed too: a listed witness that stops reproducing while the finding is live is a change
+    if kf3_live:
+        for wm in chk.known_entry(KF3)['witness'].get('more', []):
+            tpls = wm.get('templates') or {'main': wm['template']}
+            rm = run_impl('render_b', [{'templates': tpls, 'main': 'main', 'ctx': {}}])[0]
+            okw = (rm.get('ok') == wm['bundled']) if 'bundled' in wm else (rm.get('err') == wm.get('bundled_error'))
+            bump('scope_witnesses_probed')
+            if not okw:
+                chk.notes.append('F-JINJA-AUTOINDENT-SCOPE: listed witness no longer reproduces: %r -> %r' % (tpls, rm))
+                bump('scope_witnesses_changed')
     kf4_live = False
     if chk.is_known(KF4):
         w4 = chk.known_entry(KF4)['witness']
@@ -714,11 +841,6 @@ def main(chk: core.Check, replay: typing.Optional[str] = None) -> int:
     def kf_trigger(text: str) -> bool:
         """a comment opener directly followed by `*`"""
         return '{#*' in text
-
-    stats: typing.Dict[str, int] = {}
-
-    def bump(k: str, n: int = 1) -> None:
-        stats[k] = stats.get(k, 0) + n
 
     bad_oracle: typing.List[dict] = []    # property violated by the implementation (found input)
     bad_model: typing.List[dict] = []     # model/implementation correspondence broken
@@ -926,43 +1048,83 @@ def main(chk: core.Check, replay: typing.Optional[str] = None) -> int:
         if got is not None and got != s and s.splitlines()[1:]:
             distinct.add(('lp', s, p))
 
+    # The expectation is built INDEPENDENTLY of the implementation: the plain construct (marker and its blank run removed) is rendered by
+    # STOCK Jinja2 with the same options, every non-empty line of the emitted text is prefixed here (prefix_lines_keepends), pre/post are
+    # plain text subject only to the lexer's own rules (trim_blocks after a block tag, final newline, `-}}`).  The bundled side is a plain
+    # Environment or nunavut's real CodeGenEnvironment.
     ais = [gen_autoindent(rng) for _ in range(n_ai)]
-    r_marker = run_impl('render_b', [{'templates': a['marker'], 'main': 'main', 'ctx': a['ctx']} for a in ais])
-    r_plain = run_impl('diff', [{'templates': a['plain'], 'main': 'main', 'ctx': a['ctx']} for a in ais])
+    # finalize / order of stringification (D2): a few print statements under a finalize hook
+    for _ in range(max(6, n_ai // 25)):
+        a = gen_autoindent(rng)
+        a.update(kind='var', opener='{{', tail=' x }}', env='plain', opts={'finalize': 'none_to_empty'})
+        a['ctx']['x'] = rng.choice([None, None, 'a\nb', 3])
+        a['marker'] = {'main': a['pre'] + a['ws'] + '{{* x }}' + a['post']}
+        a['plain'] = {'main': '{{ x }}'}
+        ais.append(a)
+
+    def stock_opts(a):
+        o = dict(a['opts'])
+        if a['env'] == 'codegen':
+            o.update(keep_trailing_newline=True, strict_undefined=True)
+        return o
+    plain_cases = [{'templates': a['plain'], 'main': 'main', 'ctx': a['ctx'], 'opts': stock_opts(a)} for a in ais]
+    r_plain = run_impl('diff', plain_cases)
+    mk_cases = [{'templates': a['marker'], 'main': 'main', 'ctx': a['ctx'], 'opts': a['opts']} for a in ais]
+    r_marker = [None] * len(ais)
+    for envk, op in (('plain', 'render_b'), ('codegen', 'render_cg')):
+        idx = [i for i, a in enumerate(ais) if a['env'] == envk]
+        for i, r in zip(idx, run_impl(op, [mk_cases[i] for i in idx])):
+            r_marker[i] = r
     ai_lines = []
     for a, rp in zip(ais, r_plain):
-        plain_out = rp.get('s', {}).get('ok', '')
-        a['plain_out'] = plain_out
-        ai_lines.append(('V %s %s' if a['opener'] == '{{' else 'B %s %s') % (enc(a['ws'] + a['opener'] + '*'), enc(plain_out)))
+        a['plain_out'] = rp.get('s', {}).get('ok', '')
+        ai_lines.append('LM 0 %s %s' % (enc(a['plain_out']), enc(a['ws'])))      # the quirk-faithful (legacy) filter model on the stock value
+        ai_lines.append('L %s %s' % (enc(a['plain_out']), enc(a['ws'])))         # the filter as translated from /repo now
     m_ai = run_model(exe, ai_lines) if ok_model else []
     for i, a in enumerate(ais):
         bump('autoindent_cases')
         bump('autoindent_' + a['kind'])
+        bump('autoindent_env_' + a['env'])
+        bump('autoindent_trim_lstrip', bool(a['opts'].get('trim_blocks')))
         rp = r_plain[i]
-        if not same(rp.get('b', {}), rp.get('s', {})) or 'ok' not in rp.get('s', {}):
+        if 'ok' not in rp.get('s', {}):
+            if a['env'] == 'codegen' and 'err' in rp.get('s', {}) and 'err' in (r_marker[i] or {}):
+                bump('autoindent_both_fail')      # StrictUndefined etc.: the plain construct fails in stock, the marker one in the bundled engine
+                continue
             bad_oracle.append({'level': 'autoindent plain construct', 'case': a, 'bundled': rp.get('b'), 'stock': rp.get('s')})
             continue
-        # pre / post are plain text; the lexer drops one final newline of the template source (keep_trailing_newline off) and a
-        # `-}}` strips the white space that follows it
-        post = a['post'][:-1] if a['post'].endswith('\n') else a['post']
+        is_block = a['opener'] != '{{'
+        post = a['post']
+        if is_block and a['opts'].get('trim_blocks') and post.startswith('\n') and not a['tail'].rstrip().endswith('-%}'):
+            post = post[1:]                      # trim_blocks: the first newline after a block tag
         if a['kind'] == 'minus':
-            post = post.lstrip()
-        expected = a['pre'] + lineprefix_oracle(a['plain_out'], a['ws']) + post
-        if a['kind'] == 'bind':     # the block itself emits nothing; what follows it is outside the marker construct
-            expected = a['pre'] + a['plain_out'] + post
-        got = r_marker[i].get('ok')
-        if got != expected and kf2_live and a['kind'] in ('tuple', 'int') and r_marker[i].get('err') == 'AttributeError':
-            bump('known_finding_instances_autoindent_nonstr')     # trigger: the value of the marker print statement is not a str
-        elif got != expected:
-            bad_oracle.append({'level': 'autoindent', 'case': {k: a[k] for k in ('marker', 'plain', 'ctx', 'ws', 'kind')}, 'implementation': r_marker[i],
-                               'expected': expected})
+            post = post.lstrip()                 # `-}}`
+        if a['env'] == 'plain' and not a['opts'].get('keep_trailing_newline') and (a['pre'] + a['ws'] + a['tail'] + a['post']).endswith('\n') and post.endswith('\n'):
+            post = post[:-1]                     # the lexer drops one final newline of the source (CodeGenEnvironment keeps it)
+        value = a['plain_out']
+        expected = a['pre'] + prefix_lines_keepends(value, a['ws']) + post
+        got = (r_marker[i] or {}).get('ok')
+        if got == expected:
+            if a['ws'] and '\n' in value.strip('\n'):
+                distinct.add(('ai', a['marker']['main'], json.dumps(a['ctx'], sort_keys=True), a['env']))
+            continue
+        # a deviation: it is an instance of a known finding only if the trigger holds AND the quirk-faithful model reproduces the output
+        quirk = None
+        if ok_model and m_ai[2 * i].startswith('OK '):
+            quirk = a['pre'] + dec(m_ai[2 * i][3:]) + post
+        term_trigger = value != '' and (value[-1:] in '\n\r\x0b\x0c\x1c\x1d\x1e\x85\u2028\u2029' or any(ch in value for ch in '\r\x0b\x0c\x1c\x1d\x1e\x85\u2028\u2029'))
+        if kf5_live and term_trigger and quirk is not None and got == quirk:
+            bump('known_finding_instances_lineprefix_terminator')
+        elif kf6_live and a['opts'].get('finalize') and a['ctx'].get('x') is None and got == a['pre'] + a['ws'] + 'None' + post:
+            bump('known_finding_instances_autoindent_finalize')
+        elif kf2_live and a['kind'] in ('tuple', 'int') and (r_marker[i] or {}).get('err') == 'AttributeError':
+            bump('known_finding_instances_autoindent_nonstr')
+        else:
+            bad_oracle.append({'level': 'autoindent', 'case': {k: a[k] for k in ('marker', 'plain', 'ctx', 'ws', 'kind', 'env', 'opts')}, 'implementation': r_marker[i],
+                               'expected': expected, 'stock_value_of_plain_construct': value, 'quirk_model': quirk})
         if ok_model:
             bump('traces_autoindent')
-            if a['kind'] != 'bind' and m_ai[i] != 'OK ' + enc(lineprefix_oracle(a['plain_out'], a['ws'])):
-                bad_model.append({'tie': 'subparse_variable/subparse_block + do_lineprefix vs rendered marker template', 'case': a['marker'], 'model': m_ai[i]})
-        if a['ws'] and '\n' in a['plain_out'].strip('\n'):
-            distinct.add(('ai', a['marker']['main'], json.dumps(a['ctx'], sort_keys=True)))
-    samples += [{'autoindent': a['marker']['main'], 'ctx': a['ctx']} for a in ais[:4]]
+    samples += [{'autoindent': a['marker']['main'], 'ctx': a['ctx'], 'env': a['env'], 'opts': a['opts']} for a in ais[:4]]
 
     # ---- 4. assert / ifuses in nunavut's CodeGenEnvironment vs. the model and vs. ordinary conditionals in stock Jinja2 ----
     ext_cases, ext_plain, ext_model, ext_exp = [], [], [], []
